@@ -1035,7 +1035,7 @@ fn gen_c12(out: &mut Out, rng: &mut Rng, thorough: bool) {
             ops.push(Op::BackgroundColor(svgops::rand_color(rng)));
         }
         if rng.chance(2, 3) {
-            ops.push(Op::Image((*rng.pick(svgops::IMAGES)).to_string()));
+            ops.push(Op::Image(if rng.chance(1, 2) { (*rng.pick(svgops::IMAGES)).to_string() } else { svgops::rand_image(rng) }));
             if rng.chance(1, 3) {
                 ops.push(Op::ImageBgShape(rng.below(3)));
             }
